@@ -252,7 +252,11 @@ def report_violation(prop: str, entry: Dict[str, Any], tier: str) -> Path:
     vclass = v["class"]
     key = v.get("finding_key")
 
+    shrink_deadline = time.monotonic() + float(os.environ.get("VERIF_SHRINK_BUDGET_S", "150"))
+
     def still_fails(c: Dict[str, Any]) -> bool:
+        if time.monotonic() > shrink_deadline:
+            return False  # out of minimisation budget: keep what we have (it still replays)
         try:
             r = C.fork_call(_replay_one, ({"engine": batch["engine"], "case": c},), timeout=batch.get("timeout", 300.0))
         except C.HarnessError:
